@@ -601,3 +601,236 @@ Proof.
   destruct (x86_bind_loop allowed restrict_set (map N.of_nat (seq 0 nbprocs)) cur []) as [cur1 visited].
   cbn [fst snd]. unfold ideal_set. rewrite (bs_inter_subset cur allowed Hs), He. reflexivity.
 Qed.
+
+(* ---------- the Linux hooks: which masks reach the kernel ---------- *)
+(* [kinv w]: every kernel call recorded so far carried only non-empty masks inside the complete
+   cpuset / nodeset.  Each set-like Linux hook keeps it when it is called with a legal set
+   (which is all bind.c ever passes: run_only_legal), for EVERY kernel behaviour. *)
+Definition mask_ok (complete : bset) (m : option bset) : bool :=
+  match m with None => true | Some s => negb (bs_is_empty s) && bs_subset s complete end.
+Definition klegal (T : topo) (k : kcall) : bool :=
+  mask_ok (t_ccpuset T) (kcall_cpumask k) && mask_ok (t_cnodeset T) (kcall_nodemask k).
+
+Lemma subset_finite a b : bs_subset a b = true -> inf b = false -> inf a = false.
+Proof.
+  intros Hs Hb. destruct (inf a) eqn:Ea; [|reflexivity]. exfalso.
+  rewrite bs_subset_spec in Hs.
+  set (i := N.succ (N.max (N.log2 (fin a)) (N.log2 (fin b)))).
+  assert (Ha : mem i a = true). { unfold mem. rewrite N.bits_above_log2 by (unfold i; lia). now rewrite Ea. }
+  apply Hs in Ha. unfold mem in Ha. rewrite N.bits_above_log2 in Ha by (unfold i; lia). rewrite Hb in Ha. discriminate.
+Qed.
+
+Lemma mask_from_nodeset_legal T ns :
+  inf (t_cnodeset T) = false -> bs_is_empty ns = false -> bs_subset ns (t_cnodeset T) = true ->
+  mask_ok (t_cnodeset T) (Some (snd (mask_from_nodeset ns))) = true.
+Proof.
+  intros Hf He Hs. pose proof (subset_finite _ _ Hs Hf) as Hfin.
+  unfold mask_from_nodeset. assert (Hnf : bs_is_full ns = false) by (unfold bs_is_full; now rewrite Hfin).
+  rewrite Hnf. destruct (bs_last ns) as [l|] eqn:El.
+  2:{ apply bs_last_none in El. destruct El as [El|El]; [congruence|]. subst ns. discriminate He. }
+  cbn [snd mask_ok]. apply bs_last_some in El. destruct El as [Hl _].
+  apply andb_true_iff. split.
+  - apply negb_true_iff. match goal with |- ?x = false => destruct x eqn:E end; [|reflexivity]. exfalso.
+    rewrite bs_is_empty_mem in E. specialize (E l). rewrite mem_inter, Hl, mem_range in E. cbn [andb] in E.
+    apply andb_false_iff in E. destruct E as [E|E]; [apply N.leb_gt in E; lia|].
+    apply N.ltb_ge in E. revert E. unfold HWLOC_BITS_PER_LONG.
+    pose proof (N.div_mod (l + 1 + 64 - 1) 64 ltac:(lia)) as D. pose proof (N.mod_lt (l + 1 + 64 - 1) 64 ltac:(lia)). lia.
+  - apply bs_subset_spec. intros i Hi. rewrite mem_inter in Hi. apply andb_true_iff in Hi. destruct Hi as [Hi _].
+    rewrite bs_subset_spec in Hs. auto.
+Qed.
+
+Section L.
+  Variable KW : Type.
+  Variable kernel : kcall -> KW -> kres * KW.
+  Variable T : topo.
+  Variable tpid : Z.
+  Variable nr_cpus max_numnodes : N.
+  Variable garbage : bset.
+  Hypothesis Hfin : inf (t_cnodeset T) = false.
+  Notation LOS := (linux_os KW kernel T tpid nr_cpus max_numnodes garbage).
+  Definition kinv (w : lw KW) : Prop := Forall (fun k => klegal T k = true) (l_ktrace w).
+
+  Lemma kc_inv c w : klegal T c = true -> kinv w -> kinv (snd (kc KW kernel c w)).
+  Proof.
+    intros Hc Hw. unfold kc. destruct (kernel c (l_k w)). cbn [snd]. unfold kinv. cbn [l_ktrace].
+    apply Forall_app. split; [exact Hw|]. constructor; [exact Hc|constructor].
+  Qed.
+  (* a step that keeps the invariant whatever it returns *)
+  Definition keeps {X} (f : lw KW -> X * lw KW) : Prop := forall w, kinv w -> kinv (snd (f w)).
+
+  Lemma keeps_kc c : klegal T c = true -> keeps (kc KW kernel c).
+  Proof. intros H w. now apply kc_inv. Qed.
+
+  Lemma keeps_set_tid tid set : bs_is_empty set = false -> bs_subset set (t_ccpuset T) = true -> keeps (set_tid_cpubind KW kernel tid set).
+  Proof.
+    intros He Hs w Hw. unfold set_tid_cpubind. destruct (bs_last set); [|exact Hw].
+    pose proof (kc_inv (K_setaffinity tid set) w) as H. destruct (kc KW kernel (K_setaffinity tid set) w). cbn [snd] in *.
+    apply H; [|exact Hw]. unfold klegal. cbn [kcall_cpumask kcall_nodemask mask_ok]. now rewrite He, Hs.
+  Qed.
+  Lemma keeps_get_tid tid : keeps (get_tid_cpubind KW kernel T nr_cpus tid).
+  Proof.
+    intros w Hw. unfold get_tid_cpubind. pose proof (kc_inv (K_getaffinity tid) w eq_refl Hw) as H.
+    destruct (kc KW kernel (K_getaffinity tid) w). cbn [snd] in *. destruct (k_rc k <? 0)%Z; exact H.
+  Qed.
+  Lemma keeps_get_last tid : keeps (get_tid_last KW kernel tid).
+  Proof.
+    intros w Hw. unfold get_tid_last. pose proof (kc_inv (K_lastcpu tid) w eq_refl Hw) as H.
+    destruct (kc KW kernel (K_lastcpu tid) w). cbn [snd] in *. destruct (k_rc k <? 0)%Z; exact H.
+  Qed.
+
+  Section FE.
+    Variable A : Type.
+    Variable cb : Z -> nat -> A -> lw KW -> (bool * err * A) * lw KW.
+    Hypothesis Hcb : forall t i a, keeps (cb t i a).
+    Lemma keeps_pass tids : forall idx a failed ferr, keeps (foreach_pass KW A cb tids idx a failed ferr).
+    Proof.
+      induction tids as [|t rest IH]; intros idx a failed ferr w Hw; cbn [foreach_pass]; [exact Hw|].
+      pose proof (Hcb t idx a w Hw) as H1. destruct (cb t idx a w) as [[[ok e] a1] w1]. cbn [snd] in H1.
+      destruct ok; apply IH; exact H1.
+    Qed.
+    Lemma keeps_retry fuel : forall pid tids a, keeps (foreach_retry KW kernel A cb fuel pid tids a).
+    Proof.
+      induction fuel as [|f IH]; intros pid tids a w Hw; cbn [foreach_retry];
+      pose proof (keeps_pass tids 0%nat a 0%nat E0 w Hw) as H1;
+      destruct (foreach_pass KW A cb tids 0 a 0 E0 w) as [[[a1 failed] ferr] w1]; cbn [snd] in H1;
+      pose proof (kc_inv (K_tasklist pid) w1 eq_refl H1) as H2;
+      destruct (kc KW kernel (K_tasklist pid) w1) as [r w2]; cbn [snd] in H2;
+      destruct (k_rc r <? 0)%Z; try exact H2;
+      destruct (negb (zeqb_list (k_list r) tids) || ((0 <? failed)%nat && negb (failed =? List.length tids)%nat)); try exact H2.
+      - destruct (0 <? failed)%nat; exact H2.
+      - now apply IH.
+      - destruct (0 <? failed)%nat; exact H2.
+    Qed.
+    Lemma keeps_foreach pid a : keeps (foreach_proc_tid KW kernel A cb pid a).
+    Proof.
+      intros w Hw. unfold foreach_proc_tid. pose proof (kc_inv (K_tasklist pid) w eq_refl Hw) as H1.
+      destruct (kc KW kernel (K_tasklist pid) w) as [r w1]. cbn [snd] in H1.
+      destruct (k_rc r <? 0)%Z; [exact H1|]. now apply keeps_retry.
+    Qed.
+  End FE.
+
+  Lemma keeps_of_foreach (f : lw KW -> (Z * err * bset) * lw KW) : keeps f -> keeps (fun w => of_foreach KW (f w)).
+  Proof. intros H w Hw. specialize (H w Hw). unfold of_foreach. destruct (f w) as [[[rc e] a] w1]. exact H. Qed.
+
+
+  Lemma keeps_set_pid pid set : bs_is_empty set = false -> bs_subset set (t_ccpuset T) = true -> keeps (set_pid_cpubind KW kernel pid set).
+  Proof.
+    intros He Hs w Hw. unfold set_pid_cpubind.
+    apply (keeps_of_foreach (foreach_proc_tid KW kernel bset _ pid bs_empty)); [|exact Hw].
+    apply keeps_foreach. intros t i a w0 Hw0. pose proof (keeps_set_tid t set He Hs w0 Hw0) as H.
+    destruct (set_tid_cpubind KW kernel t set w0). exact H.
+  Qed.
+  Lemma keeps_get_pid pid flags : keeps (get_pid_cpubind KW kernel T nr_cpus pid flags).
+  Proof.
+    intros w Hw. unfold get_pid_cpubind.
+    apply (keeps_of_foreach (foreach_proc_tid KW kernel bset _ pid bs_empty)); [|exact Hw].
+    apply keeps_foreach. intros t i a w0 Hw0. pose proof (keeps_get_tid t w0 Hw0) as H.
+    destruct (get_tid_cpubind KW kernel T nr_cpus t w0) as [r w1]. cbn [snd] in H.
+    destruct (negb (hr_rc r =? 0)%Z); [exact H|]. destruct (flag HWLOC_CPUBIND_STRICT flags); [|exact H].
+    destruct i; [exact H|]. destruct (bs_eqb _ _); exact H.
+  Qed.
+  Lemma keeps_get_pid_last pid : keeps (get_pid_last KW kernel pid).
+  Proof.
+    intros w Hw. unfold get_pid_last.
+    apply (keeps_of_foreach (foreach_proc_tid KW kernel bset _ pid bs_empty)); [|exact Hw].
+    apply keeps_foreach. intros t i a w0 Hw0. pose proof (keeps_get_last t w0 Hw0) as H.
+    destruct (get_tid_last KW kernel t w0) as [r w1]. cbn [snd] in H.
+    destruct (negb (hr_rc r =? 0)%Z); exact H.
+  Qed.
+
+  Lemma keeps_pm_probe (issue : Z -> lw KW -> kres * lw KW) lp pm :
+    (forall m, keeps (issue m)) -> forall w, kinv w -> kinv (snd (with_pm_probe KW issue lp pm w)).
+  Proof.
+    intros Hi w Hw. unfold with_pm_probe. pose proof (Hi lp w Hw) as H1. destruct (issue lp w) as [r w1]. cbn [snd] in H1.
+    destruct ((lp =? zN MPOL_PREFERRED_MANY)%Z && (pm =? -1)%Z); [|exact H1].
+    destruct (k_rc r =? 0)%Z; [exact H1|]. destruct (err_eqb (k_errno r) EINVAL); [|exact H1].
+    pose proof (Hi (zN MPOL_PREFERRED) w1 H1) as H2. destruct (issue (zN MPOL_PREFERRED) w1) as [r2 w2]. cbn [snd] in H2.
+    destruct (k_rc r2 =? 0)%Z; exact H2.
+  Qed.
+
+  Lemma keeps_set_thisthread_membind ns p f :
+    bs_is_empty ns = false -> bs_subset ns (t_cnodeset T) = true -> keeps (linux_set_thisthread_membind KW kernel T ns p f).
+  Proof.
+    intros He Hs w Hw. unfold linux_set_thisthread_membind. destruct (linux_policy p f) as [lp0|]; [|exact Hw].
+    set (lp := pm_fix (l_pm_thread w) lp0). destruct (lp =? zN MPOL_DEFAULT)%Z.
+    { pose proof (kc_inv (K_set_mempolicy lp None 0) w eq_refl Hw) as H. destruct (kc KW kernel (K_set_mempolicy lp None 0) w). exact H. }
+    destruct (lp =? zN MPOL_LOCAL)%Z.
+    { destruct (negb (bs_eqb ns (t_cnodeset T))); [exact Hw|].
+      pose proof (kc_inv (K_set_mempolicy (zN MPOL_PREFERRED) None 0) w eq_refl Hw) as H.
+      destruct (kc KW kernel (K_set_mempolicy (zN MPOL_PREFERRED) None 0) w). exact H. }
+    pose proof (mask_from_nodeset_legal T ns Hfin He Hs) as Hm. destruct (mask_from_nodeset ns) as [maxi mask]. cbn [snd] in Hm.
+    assert (Hgo : forall w0, kinv w0 -> kinv (snd (
+        let '(r, pm, w1) := with_pm_probe KW (fun m => kc KW kernel (K_set_mempolicy m (Some mask) (maxi + 1))) lp (l_pm_thread w0) w0 in
+        ((if (k_rc r <? 0)%Z then hfail (k_errno r) else hok), set_pm_thread KW pm w1)))).
+    { intros w0 Hw0.
+      assert (Hk : forall m, klegal T (K_set_mempolicy m (Some mask) (maxi + 1)) = true)
+        by (intros m; unfold klegal; cbn [kcall_cpumask kcall_nodemask mask_ok andb]; exact Hm).
+      pose proof (keeps_pm_probe (fun m => kc KW kernel (K_set_mempolicy m (Some mask) (maxi + 1))) lp (l_pm_thread w0)
+                    (fun m => keeps_kc _ (Hk m)) w0 Hw0) as H.
+      destruct (with_pm_probe KW _ lp (l_pm_thread w0) w0) as [[r pm] w1]. exact H. }
+    destruct (flag HWLOC_MEMBIND_MIGRATE f); [|now apply Hgo].
+    pose proof (kc_inv (K_migrate_pages (maxi + 1) (migrate_fullmask maxi) mask) w) as H.
+    destruct (kc KW kernel (K_migrate_pages (maxi + 1) (migrate_fullmask maxi) mask) w) as [r w1]. cbn [snd] in H.
+    assert (H1 : kinv w1) by (apply H; [unfold klegal; cbn [kcall_cpumask kcall_nodemask mask_ok andb]; exact Hm|exact Hw]).
+    destruct ((k_rc r <? 0)%Z && flag HWLOC_MEMBIND_STRICT f); [exact H1|now apply Hgo].
+  Qed.
+
+  Lemma keeps_set_area_membind len ns p f :
+    bs_is_empty ns = false -> bs_subset ns (t_cnodeset T) = true -> keeps (linux_set_area_membind KW kernel T len ns p f).
+  Proof.
+    intros He Hs w Hw. unfold linux_set_area_membind. destruct (linux_policy p f) as [lp0|]; [|exact Hw].
+    set (lp := pm_fix (l_pm_area w) lp0). destruct (lp =? zN MPOL_DEFAULT)%Z.
+    { pose proof (kc_inv (K_mbind len lp None 0 0) w eq_refl Hw) as H. destruct (kc KW kernel (K_mbind len lp None 0 0) w). exact H. }
+    destruct (lp =? zN MPOL_LOCAL)%Z.
+    { destruct (negb (bs_eqb ns (t_cnodeset T))); [exact Hw|].
+      pose proof (kc_inv (K_mbind len (zN MPOL_PREFERRED) None 0 0) w eq_refl Hw) as H.
+      destruct (kc KW kernel (K_mbind len (zN MPOL_PREFERRED) None 0 0) w). exact H. }
+    pose proof (mask_from_nodeset_legal T ns Hfin He Hs) as Hm. destruct (mask_from_nodeset ns) as [maxi mask]. cbn [snd] in Hm.
+    match goal with |- context [with_pm_probe KW (fun m => kc KW kernel (K_mbind len m (Some mask) (maxi + 1) ?mfl)) lp ?pm w] =>
+      assert (Hk : forall m, klegal T (K_mbind len m (Some mask) (maxi + 1) mfl) = true)
+        by (intros m; unfold klegal; cbn [kcall_cpumask kcall_nodemask mask_ok andb]; exact Hm);
+      pose proof (keeps_pm_probe (fun m => kc KW kernel (K_mbind len m (Some mask) (maxi + 1) mfl)) lp pm (fun m => keeps_kc _ (Hk m)) w Hw) as H;
+      destruct (with_pm_probe KW (fun m => kc KW kernel (K_mbind len m (Some mask) (maxi + 1) mfl)) lp pm w) as [[r pm'] w1] end. exact H.
+  Qed.
+
+  Lemma keeps_alloc len : keeps (linux_alloc KW kernel len).
+  Proof.
+    intros w Hw. unfold linux_alloc. pose proof (kc_inv (K_mmap len) w eq_refl Hw) as H.
+    destruct (kc KW kernel (K_mmap len) w) as [r w1]. cbn [snd] in H. destruct (k_rc r <? 0)%Z; exact H.
+  Qed.
+  Lemma keeps_alloc_membind len ns p f :
+    bs_is_empty ns = false -> bs_subset ns (t_cnodeset T) = true -> keeps (linux_alloc_membind KW kernel T len ns p f).
+  Proof.
+    intros He Hs w Hw. unfold linux_alloc_membind. pose proof (keeps_alloc len w Hw) as H1.
+    destruct (linux_alloc KW kernel len w) as [a w1]. cbn [snd] in H1. destruct (hr_rc a =? 0)%Z; [exact H1|].
+    pose proof (keeps_set_area_membind len ns p f He Hs w1 H1) as H2.
+    destruct (linux_set_area_membind KW kernel T len ns p f w1) as [r w2]. cbn [snd] in H2.
+    destruct ((hr_rc r <? 0)%Z && flag HWLOC_MEMBIND_STRICT f); exact H2.
+  Qed.
+  Lemma keeps_get_thisthread_membind : keeps (linux_get_thisthread_membind KW kernel T max_numnodes).
+  Proof.
+    intros w Hw. unfold linux_get_thisthread_membind. pose proof (kc_inv (K_get_mempolicy false max_numnodes 0) w eq_refl Hw) as H.
+    destruct (kc KW kernel (K_get_mempolicy false max_numnodes 0) w) as [r w1]. cbn [snd] in H.
+    destruct (k_rc r <? 0)%Z; [exact H|]. destruct (hwloc_policy _); exact H.
+  Qed.
+  Lemma keeps_area_pages n : forall a, keeps (area_pages KW kernel max_numnodes n a).
+  Proof.
+    induction n as [|n IH]; intros a w Hw; cbn [area_pages]; [exact Hw|].
+    pose proof (kc_inv (K_get_mempolicy true max_numnodes MPOL_F_ADDR) w eq_refl Hw) as H.
+    destruct (kc KW kernel (K_get_mempolicy true max_numnodes MPOL_F_ADDR) w) as [r w1]. cbn [snd] in H.
+    destruct (k_rc r <? 0)%Z; [exact H|]. now apply IH.
+  Qed.
+  Lemma keeps_get_area_membind len : keeps (linux_get_area_membind KW kernel T max_numnodes garbage len).
+  Proof.
+    intros w Hw. unfold linux_get_area_membind.
+    pose proof (keeps_area_pages (pages_of len) (AA 0 0 false false true (area_gmask0 max_numnodes garbage)) w Hw) as H.
+    destruct (area_pages KW kernel max_numnodes (pages_of len) _ w) as [[e a] w1]. cbn [snd] in H.
+    destruct e; [exact H|]. destruct (aa_mixed a); [exact H|]. destruct (hwloc_policy (aa_lp a)); exact H.
+  Qed.
+  Lemma keeps_get_area_memlocation len : keeps (linux_get_area_memlocation KW kernel len).
+  Proof.
+    intros w Hw. unfold linux_get_area_memlocation. pose proof (kc_inv (K_move_pages (N.of_nat (pages_of len))) w eq_refl Hw) as H.
+    destruct (kc KW kernel (K_move_pages (N.of_nat (pages_of len))) w) as [r w1]. cbn [snd] in H. destruct (k_rc r <? 0)%Z; exact H.
+  Qed.
+
+End L.
